@@ -62,6 +62,19 @@ def cfg_domain(tier, seed, n_random, n_productive):
     return out
 
 
+def exact_duplicates(g, rng=None, p=0.6):
+    """Every chosen rule (w, h, b) is replaced by two copies (w/2, h, b): the same production listed twice with identical weight,
+    head and body - Rule objects that compare (and hash) equal.  Total weights are unchanged (w/2 + w/2 = w), so convergence is
+    that of the original grammar.  (Strengthened after seeded change C07-4.)"""
+    rules = []
+    for w, h, b in g.rules:
+        if rng is None or rng.random() < p:
+            rules += [(w / 2, h, b), (w / 2, h, b)]
+        else:
+            rules.append((w, h, b))
+    return type(g)(g.S, g.V, rules)
+
+
 def int_terminals(g):
     m = {a: i for i, a in enumerate(sorted(g.V))}
     return G(g.S, frozenset(m.values()), [(w, h, tuple(m.get(y, y) for y in b)) for w, h, b in g.rules])
